@@ -823,7 +823,10 @@ func crossHandshake(rng *rand.Rand) (outcome, detail, input string) {
 	return
 }
 
-func main() { vf.Main("C13", "model_checking", run) }
+func main() {
+	vf.GuardFatal = true
+	vf.Main("C13", "model_checking", run)
+}
 
 func run(c *vf.Ctx) {
 	c.Rule("M: TLC exhaustive on FrameLifecycle: ownership of a frame buffer over every exit path of reader, switch, router worker, handlers and writers; 50 input classes (pipeline stage x malformation kind). R: every class expanded with seeded structured generation (quick 24 / thorough 1500 instances per class) and fed to the real parser, the real link set-up and reader (before / during / after the handshake), one long-lived router through the real switch handler and router worker with frames sealed by an authenticated peer's real keys, and concurrent handshakes between the same routers. T: outcome of every input, double releases and liveness judged by TLC. distinct = distinct (class, instance) inputs")
